@@ -11,6 +11,9 @@
               the canonical form's in-progress guard is generation based: re-entry allowed only after a named type was
               written in full since (F16: the first F8 repair refused every re-entry); the zero-size-cycle search
               visits each record once (F20, shared with C07)
+              the generation counter is bumped on the first-occurrence edge only; the JSON guard's release resets the
+              node unconditionally
+  KEYBOUNDS   ... SchemaKey::root() is node 0; PANIC/name-index: the leading dot of ".x" is removed at index 0
 It does NOT decide actual stack use or running time.
 """
 import json, os, subprocess
